@@ -159,7 +159,8 @@ pub fn all_shapes(n: usize) -> Vec<Rose> {
         .collect()
 }
 
-/// random shape with about `size` nodes: arity distribution {1:10%, 2:55%, 3:20%, 4-8:15%}
+/// random shape with about `size` nodes: arity distribution {1:10%, 2:55%, 3:20%, 4-8:15%}; where the budget allows, one node in
+/// twelve has 33 to 96 children
 pub fn random_shape(rng: &mut Rng, size: usize) -> Rose {
     fn go(rng: &mut Rng, budget: usize) -> Rose {
         // budget = number of nodes in this subtree (>= 1)
@@ -177,6 +178,10 @@ pub fn random_shape(rng: &mut Rng, size: usize) -> Rose {
         } else {
             rng.range(4, 8)
         };
+        // now and then a polytomy far wider than any of the above (a star, an unresolved clade of dozens of taxa)
+        if avail >= 34 && rng.chance(1, 12) {
+            arity = rng.range(33, avail.min(96));
+        }
         if arity > avail {
             arity = avail;
         }
@@ -330,10 +335,14 @@ pub fn label(rng: &mut Rng, t: &mut Rose, o: &LabelOpts) {
             k += 1;
         }
         if rng.below(100) < o.comments_pct {
-            r.comment = Some(match rng.below(4) {
+            // a comment is opaque data: strings that are annotations with a meaning in OTHER tools and formats (Nexus rooting
+            // flags, weights, NHX, BEAST / FigTree attributes, support values) are comments like any other
+            const MAGIC: &[&str] = MAGIC_COMMENTS;
+            r.comment = Some(match rng.below(6) {
                 0 => "c".to_string(),
                 1 => "&&NHX:x=1".to_string(),
                 2 => "a b,(c):d;\"q".to_string(),
+                3 | 4 => rng.pick(MAGIC).to_string(),
                 _ => format!("n{}", rng.below(100)),
             });
         }
@@ -357,7 +366,11 @@ pub fn label(rng: &mut Rng, t: &mut Rose, o: &LabelOpts) {
 /// Characters that mean nothing to any format of the crate and must therefore pass through every function untouched: markup
 /// (`&`, `<`, `>`), shell / regex / path / format-string metacharacters, digits-and-signs that read as numbers, multi-byte
 /// letters.  `text_safe` leaves out nothing here (none of them is Newick or Phylip syntax, none is white space).
-pub const SPICE: &[&str] = &["&", "<", ">", "&amp;", "&lt;", "'", "%", "%s", "{}", "{0}", "#", "@", "!", "$", "^", "*", "_", "-", "+", "=", "|", "\\", "/", "?", ".", "~", "`", "0x", "1e3", "-1", "é", "ß", "Ω", "日本", "🌳"];
+/// comment texts that are annotations with a meaning in other tools and formats; to this crate a comment is opaque data
+pub const MAGIC_COMMENTS: &[&str] = &["&R", "&U", "&r", "&u", "&", "&&", "&W 0.5", "&&NHX", "&&NHX:S=human:E=1.1", "&!color=#ff0000", "&rate=0.1,height=2", "100", "0.95", "1e-3",
+                                      "R", "U", "!", "%", "\\", "'", "()", "[", "&R ", " &R", "&R&U", "%s{}", "<b>", "-", "0", "nan"];
+
+pub const SPICE: &[&str] = &["&", "<", ">", "&amp", "&#38", "'", "%", "%s", "{}", "{0}", "#", "@", "!", "$", "^", "*", "_", "-", "+", "=", "|", "\\", "/", "?", ".", "~", "`", "0x", "1e3", "-1", "é", "ß", "Ω", "日本", "🌳"];
 
 /// rewrites about `pct` percent of the names of a tree by inserting one of the SPICE strings at a random position (front,
 /// middle, end) or by making the whole name one of them followed by a counter (so names stay pairwise different)
@@ -382,6 +395,41 @@ pub fn spice_names(rng: &mut Rng, t: &mut Rose, pct: usize) -> usize {
         0,
     );
     k
+}
+
+/// pairwise different names that are closed under concatenation as far as possible (all words of length 1..=3 over `a b c`):
+/// two DIFFERENT sets of such names often concatenate to the same string (`a`+`bc` = `ab`+`c`), so a set of taxa must never be
+/// identified with the concatenation (or any separator-free rendering) of its names
+pub fn concat_names(rng: &mut Rng, n: usize) -> Vec<String> {
+    let mut all: Vec<String> = vec![];
+    for a in ["a", "b", "c"] {
+        all.push(a.to_string());
+        for b in ["a", "b", "c"] {
+            all.push(format!("{a}{b}"));
+            for c in ["a", "b", "c"] {
+                all.push(format!("{a}{b}{c}"));
+            }
+        }
+    }
+    // short words first with high probability: collisions need the short ones
+    let (mut short, mut long): (Vec<String>, Vec<String>) = all.into_iter().partition(|x| x.len() <= 2);
+    rng.shuffle(&mut short);
+    rng.shuffle(&mut long);
+    short.extend(long);
+    let mut v: Vec<String> = short.into_iter().take(n).collect();
+    let mut k = 0;
+    while v.len() < n {
+        v.push(format!("abc{k}"));
+        k += 1;
+    }
+    rng.shuffle(&mut v);
+    v
+}
+
+/// gives the leaves of a tree the names of [`concat_names`]
+pub fn rename_leaves_concat(rng: &mut Rng, t: &mut Rose) {
+    let mut names = concat_names(rng, t.n_leaves());
+    t.for_each_mut(&mut |r, _, _| if r.kids.is_empty() { r.name = names.pop(); }, true, 0);
 }
 
 /// Build through the public API in pre-order: ids equal pre-order positions.
